@@ -235,6 +235,15 @@ func finishSnapshot(s *Snapshot, part *scheduler.PartitionContext) *Snapshot {
 		q.EffMax = FromCore(cq.GetMaxResource())
 		q.QuotaPreemptRunning = cq.VerifQuotaPreemptionRunning()
 	}
+	SnapTrackers(s)
+	return s
+}
+
+// SnapTrackers reads the user and group trackers of the (process wide) user group manager through their REST DAOs.
+func SnapTrackers(s *Snapshot) {
+	if s.Users == nil {
+		s.Users, s.Groups = map[string]*TrackSnap{}, map[string]*TrackSnap{}
+	}
 	m := ugm.GetUserManager()
 	for _, ut := range m.GetUserTrackers() {
 		d := ut.GetResourceUsageDAOInfo()
@@ -253,7 +262,6 @@ func finishSnapshot(s *Snapshot, part *scheduler.PartitionContext) *Snapshot {
 		sort.Strings(t.Applications)
 		s.Groups[d.GroupName] = t
 	}
-	return s
 }
 
 // PathPrefixes returns root, root.a, root.a.b for root.a.b.
